@@ -35,6 +35,7 @@ def run(chk: Check, proj: Project) -> None:
     s6_gating(chk, proj, m)
     s7_frames(chk, proj, m)
     s8_reader_not_wider(chk, proj, m)
+    s14_no_value_keyed_memo(chk, proj, m)
     s9_optional_index(chk, proj, m)
     s10_scan_input(chk, proj, m)
     s12_gives_up_only_without_both(chk, proj, m)
@@ -90,6 +91,36 @@ def s12_gives_up_only_without_both(chk: Check, proj: Project, m, rule: str = "S1
         else:
             chk.violated(rule, key, m.loc(r), f"`return None` under {sorted(at)} does not require both kinds to be absent: the other kind is never inserted")
     chk.floor(rule, n, 2)
+    # ... and the caller lets the helper decide: whether the document HAS an insertion point is the helper's regex scan; a
+    # pre-test of the content at the call site can only be narrower than that scan
+    rf = m.func("render_dependencies")
+    sc = [c for c in calls(rf) if last_attr(c.func) == "_insert_js_css_to_default_locations"]
+    if sc:
+        pre = []
+        for e, pol in flatten_conj(path_conditions(enclosing_stmt(sc[0]))):
+            for v_ in [e] + [x for nm_ in {y.id for y in ast.walk(e) if isinstance(y, ast.Name)} for _s, x in assignments(rf, nm_) if x is not None]:
+                if any(isinstance(c_, ast.Compare) and isinstance(c_.ops[0], (ast.In, ast.NotIn)) and isinstance(c_.left, ast.Constant) and isinstance(c_.left.value, (str, bytes)) and ("head" in str(c_.left.value).lower() or "body" in str(c_.left.value).lower()) for c_ in ast.walk(v_)):
+                    pre.append(e)
+        chk.ob(rule, "dependencies:render_dependencies:no-literal-pretest-of-the-insertion-point", m.loc(pre[0]) if pre else m.loc(sc[0]), not pre,
+               "the default-location helper is called whenever a kind is still to be placed; only its own scan decides whether an end tag exists" if not pre else
+               f"the call is additionally guarded by `{short(pre[0])}`, a literal test that is narrower than the helper's end-tag regex: a document whose end tags are all written `</head >` / `</body\\n>` never reaches the helper, the markers are stripped and the collected CSS / JS is silently dropped")
+
+
+def s14_no_value_keyed_memo(chk: Check, proj: Project, m) -> None:
+    chk.rule("S14", "the result type follows the argument's type on EVERY call: the entry points that take the content are not memoised by a value-keyed cache (functools.lru_cache / cache compare arguments with ==, and SafeString('x') == 'x' with the same hash, so the str / SafeString distinction is lost in the key)")
+    n = 0
+    for q in ("render_dependencies", "_render_dependencies", "_insert_js_css_to_default_locations"):
+        r = proj.try_func("dependencies", q)
+        if r is None:
+            continue
+        _m, f = r
+        n += 1
+        decs = [norm(d.func) if isinstance(d, ast.Call) else norm(d) for d in f.decorator_list]
+        memo = [d for d in decs if d.split(".")[-1] in ("lru_cache", "cache", "cached", "memoize", "cached_property")]
+        chk.ob("S14", f"dependencies:{q}:not-memoised-by-value", m.loc(f), not memo,
+               "no value-keyed memo in front of the function" if not memo else
+               f"`@{memo[0]}` keys the result by argument EQUALITY: the second call with equal text of the other str type gets the first call's object back - a SafeString comes back as plain str (escaped again downstream), or an untrusted str comes back marked safe")
+    chk.floor("S14", n, 2)
 
 
 def s10_scan_input(chk: Check, proj: Project, m) -> None:
